@@ -2,9 +2,10 @@ from .. import smt_units
 
 PROP = {
     "kani_groups": ["hk_file"],
-    "smt": [smt_units.unit_file_arith],
+    "smt": [smt_units.unit_file_arith, smt_units.unit_file_onbatch],
     "technique": "bounded model checking (Kani/CBMC) of the file-writing kernels of emit_file over a fault-injecting harness filesystem",
-    "functions": ["E2 (mir2smt, MIR -> SMT-LIB Int, cvc5 + z3): emit_file::rolling_millis composed with Timestamp::{to_parts, from_parts, duration_since} "
+    "functions": ["E2-cfg (mir2smt/cfgabs.py): Worker::on_batch::{closure#0} structural obligation r1 (every try_open_create is preceded by ActiveFileSet::read and apply_retention on the same path); counter-paths are concretised through the real Worker over an in-memory filesystem and reported only if the property's own oracle (files of the set <= max_files after every batch) fails",
+                  "E2 (mir2smt, MIR -> SMT-LIB Int, cvc5 + z3): emit_file::rolling_millis composed with Timestamp::{to_parts, from_parts, duration_since} "
                   "for every clock reading in [MIN, MAX] x {Day, Hour, Minute}: panic-free, < 86 400 000, monotone within a period"],
     "bounds": "",
     "outside": "",
